@@ -98,10 +98,11 @@ func (s *Stream) Read(buf []byte) (n int, err error) {
 
 func (s *Stream) obfuscateAndSend(buf []byte, payloadOffsetInBuf int) error {
 	cipherTextLen, err := s.session.obfuscate(&s.writingFrame, buf, payloadOffsetInBuf)
-	s.writingFrame.Seq++
 	if err != nil {
+		// no frame was produced: its sequence number must not be consumed
 		return err
 	}
+	s.writingFrame.Seq++
 
 	_, err = s.session.sb.send(buf[:cipherTextLen], &s.assignedConn)
 	if err != nil {
